@@ -389,8 +389,75 @@ fn sweep_cases(thorough: bool) -> Vec<IdxCase> {
     out
 }
 
+/// Hook-free variant: the same shapes through the public API. Long keys (fan-out 11 / 38), up to 250 distinct keys
+/// with a few long version runs, written into one blob that is then closed and dumped; every query for every key
+/// is compared with the reference model (index on disk), then again after a restart with the index kept / removed.
+fn storage_tree_strategy() -> BoxedStrategy<crate::ops::Case> {
+    use crate::ops::*;
+    (prop::sample::select(&[100usize, 400][..]), 20u8..250, prop::collection::vec((any::<u8>(), 2u16..40), 0..4), any::<u64>(), any::<bool>(), any::<bool>())
+        .prop_map(|(keylen, nkeys, runs, seed, lazy, remove_idx)| {
+            let mut r = Lcg(seed | 1);
+            let mut ops = vec![];
+            let mut order: Vec<u8> = (0..nkeys).collect();
+            for (k, n) in &runs {
+                for _ in 0..*n {
+                    order.push(k % nkeys);
+                }
+            }
+            for i in (1..order.len()).rev() {
+                let j = r.below(i as u64 + 1) as usize;
+                order.swap(i, j);
+            }
+            for k in order {
+                if r.below(12) == 0 {
+                    ops.push(Op::Delete { key: k, ts: r.below(4), meta: 0, only_if: false });
+                } else {
+                    ops.push(Op::Write { key: k, ts: r.below(4), meta: (r.below(3)) as u8, vlen: 6 + r.below(20) as u32, fill: 0 });
+                }
+            }
+            ops.push(Op::Switch);
+            ops.push(Op::WaitIdle);
+            ops.push(Op::Write { key: 0, ts: 1, meta: 0, vlen: 5, fill: 0 });
+            ops.push(Op::Reopen { lazy, remove_all_idx: remove_idx, damage: vec![] });
+            Case { cfg: crate::sut::Cfg { keylen, allow_dup: true, defer_ms: (2, 5), ..crate::sut::Cfg::default() }, ops }
+        })
+        .boxed()
+}
+
+fn run_storage_tree(c: &crate::ops::Case, dir: &Path, findings: &crate::findings::Findings) -> Result<CaseOut, Failure> {
+    use crate::interp::{Checks, Exec};
+    let nkeys = c.ops.iter().filter_map(|o| match o { crate::ops::Op::Write { key, .. } | crate::ops::Op::Delete { key, .. } => Some(*key), _ => None }).max().unwrap_or(0);
+    let rt = c.cfg.runtime();
+    let res = rt.block_on(async {
+        let mut ex = Exec::new(c.cfg.clone(), dir.to_path_buf(), Checks { read: true, versions: true, counts: true, ..Default::default() }, nkeys, 2, findings);
+        ex.start().await?;
+        for (i, op) in c.ops.iter().enumerate() {
+            ex.apply(i, op).await?;
+            // the full comparison for every key is expensive: do it when the tree is on disk and after the restart
+            if matches!(op, crate::ops::Op::WaitIdle | crate::ops::Op::Reopen { .. }) {
+                ex.check().await?;
+            }
+        }
+        ex.close().await?;
+        let mut labels: BTreeSet<String> = ex.labels.iter().map(|s| s.to_string()).collect();
+        labels.insert(format!("storage_keylen_{}", c.cfg.keylen));
+        let leaves = (nkeys as usize + 1 + per_block(c.cfg.keylen) - 1) / per_block(c.cfg.keylen);
+        if leaves > fanout(c.cfg.keylen) {
+            labels.insert("storage_ge2_node_levels".to_string());
+        }
+        Ok(CaseOut { nontrivial: leaves > fanout(c.cfg.keylen), labels, stats: ex.stats.clone(), known_hits: Default::default(), weight: 1 })
+    });
+    drop(rt);
+    res
+}
+
 pub fn run(ctx: &RunCtx) -> PropResult {
     let mut report = Report::default();
+    {
+        let findings = ctx.findings.clone();
+        let runf = |c: &crate::ops::Case, d: &Path| run_storage_tree(c, d, &findings);
+        run_generated(ctx, "storage-tree", ctx.tier.pick(200, 6000), storage_tree_strategy, runf, &crate::props::history::sample_case, &mut report);
+    }
     run_replays::<IdxCase, _>(ctx, "index", &ctx.verif_dir.join("replays").join("C09"), run_idx, &mut report);
     run_generated(ctx, "index", ctx.tier.pick(3000, 120_000), idx_strategy, run_idx, &sample, &mut report);
     let sweep = sweep_cases(ctx.tier == Tier::Thorough);
@@ -398,7 +465,7 @@ pub fn run(ctx: &RunCtx) -> PropResult {
     PropResult {
         report,
         level: "exploration",
-        rule: "Header multisets pushed through the IndexProbe hook into the crate-private index: key length from {1,2,4,7,8,16,33,71,100,400,1000} (fan-out 454..5; 7 and 71 make the serialized header divide the 4 KiB block), key counts drawn around 1, one block, fan-out and fan-out^2 blocks (up to 3000 keys / 6000 headers), up to 4 keys with version runs of 2, 3, block-1, block, block+1, 2 blocks, 2 blocks+1 or 1..300, timestamps from 1-4 values (heavy ties), 0/15/50 % deletion markers, shuffled push order. Oracle: get_latest, get_all, get_all_with_deletion_marker and count in four stages (in memory, dumped to file, loaded back, opened from file) against a sorted-list model (timestamp desc, later push first, cut after first marker) for present keys, the absent key below each of them, below the minimum and above the maximum. A second, enumerated phase sweeps key counts around every power of the fan-out and runs around block boundaries per key length. Non-trivial = >=2 node levels above the leaves, or a version run longer than a block, or a last leaf shorter than a block. distinct = FNV hash of the serialized case.".into(),
+        rule: "Header multisets pushed through the IndexProbe hook into the crate-private index: key length from {1,2,4,7,8,16,33,71,100,400,1000} (fan-out 454..5; 7 and 71 make the serialized header divide the 4 KiB block), key counts drawn around 1, one block, fan-out and fan-out^2 blocks (up to 3000 keys / 6000 headers), up to 4 keys with version runs of 2, 3, block-1, block, block+1, 2 blocks, 2 blocks+1 or 1..300, timestamps from 1-4 values (heavy ties), 0/15/50 % deletion markers, shuffled push order. Oracle: get_latest, get_all, get_all_with_deletion_marker and count in four stages (in memory, dumped to file, loaded back, opened from file) against a sorted-list model (timestamp desc, later push first, cut after first marker) for present keys, the absent key below each of them, below the minimum and above the maximum. A hook-free phase (storage-tree) drives 20-250 distinct keys of 100 / 400 bytes (fan-out 38 / 11, i.e. two node levels) with version runs through Storage (write, switch, wait for the dump, restart with index kept or removed) and compares every query for every key with the reference model. A second, enumerated phase sweeps key counts around every power of the fan-out and runs around block boundaries per key length. Non-trivial = >=2 node levels above the leaves, or a version run longer than a block, or a last leaf shorter than a block. distinct = FNV hash of the serialized case.".into(),
         assumptions: {
             let mut a = common_assumptions();
             a.push("IndexProbe (src/verif.rs) builds headers from a bincode mirror of record::Header and calls Index::push/dump/load/get_* unchanged".into());
@@ -408,6 +475,11 @@ pub fn run(ctx: &RunCtx) -> PropResult {
 }
 
 pub fn replay_other(phase: &str, case: &Value, dir: &Path) -> Option<Result<CaseOut, Failure>> {
+    if phase == "storage-tree" {
+        let f = crate::findings::Findings::default();
+        let runf = |c: &crate::ops::Case, d: &Path| run_storage_tree(c, d, &f);
+        return serde_json::from_value::<crate::ops::Case>(case.clone()).ok().map(|c| guarded(&c, dir, &runf));
+    }
     if phase.starts_with("index") {
         serde_json::from_value::<IdxCase>(case.clone()).ok().map(|c| guarded(&c, dir, &run_idx))
     } else {
